@@ -794,8 +794,10 @@ class ReadSetReader:
                 if restricted_variants is None or i in restricted_variants.as_vector()
             ]
             distances.sort(key=lambda x: x[1])
+            # The weight of the detected allele is by how much the runner-up costs more (the
+            # distances are sorted in ascending order: the difference must not come out negative)
             base_qual_score = (
-                distances[0][1] - distances[1][1] if len(distances) > 1 else distances[0][1]
+                distances[1][1] - distances[0][1] if len(distances) > 1 else distances[0][1]
             )
         else:
             distances = [
